@@ -6,6 +6,7 @@ from . import props_value
 CHECKS = {
     "C01": props_value.check_C01,
     "C03": props_value.check_C03,
+    "C07": props_value.check_C07,
 }
 
 
